@@ -6,7 +6,7 @@ A script is a list of tuples; the same alphabet is understood by the Coq model
   ("open",) ("close",) ("send", k, pol) ("send2", k1, pol1, k2, pol2)
   ("adv", ticks) ("net", accept, latency_ticks) ("eof",) ("rst",)
   ("frame", j) ("bad", kind) ("failw",) ("reset",) ("subraise", flag)
-and, outside the model (monitors only): ("bp", on) ("subsend", k, pol) ("sendclose", k, pol) ("trunc", j, cut)
+and, outside the model (monitors only): ("bp", on) ("subsend", k, pol) ("sendclose", k, pol) ("trunc", j, cut) ("burn", next_id)
 
 The result is one list of canonical events per stimulus.
 """
@@ -389,6 +389,13 @@ class SockRunner:
             cur = net.current()
             if cur is not None:
                 cur.transport.peer_bytes(bad_input(self.gen, st[1]))
+        elif kind == "burn":
+            # consume packet ids (public header factory) until the next send gets id st[1]: puts the wrap of the
+            # 256-value counter inside the scenario; outside the model, monitors only
+            for _ in range(600):
+                h = self.reg.header_factory.create_from_message(self.cat[0][0], 0)
+                if (h.packet_id + 1) % 256 == st[1] % 256:
+                    break
         elif kind == "trunc":
             # the first `cut` bytes of a good frame (the rest never comes): outside the model, monitors only
             cur = net.current()
